@@ -112,6 +112,25 @@ theorem addInterval_month_ok (date months days : Int) :
   have h := civilFromDays_month (date + days)
   exact addMonthsCivil_some _ _ _ _ h.1 h.2
 
+/-- `Date + Interval` never panics, whatever the date and the interval (as far as the calendar
+arithmetic goes: chrono's and i32's ranges are not modelled). -/
+theorem addInterval_isSome (date months days : Int) : (addInterval date months days).isSome = true := by
+  unfold addInterval
+  generalize hc : civilFromDays (date + days) = c
+  obtain ⟨y, m, d⟩ := c
+  have hm := civilFromDays_month (date + days)
+  have hd := civilFromDays_day_pos (date + days)
+  rw [hc] at hm hd
+  simp only at hm hd
+  simp only
+  rw [addMonthsCivil_eq_spec y m d months hm.1 hm.2]
+  have hv := addMonths_day_valid y m d months hd
+  simp only at hv
+  generalize addMonthsSpec y m d months = r at hv
+  obtain ⟨yr, mo, dd⟩ := r
+  simp only at hv ⊢
+  simp [hv.2.2.1, hv.2.2.2]
+
 /-- The day number moves by one with the day of month (the conversion is a count of days). -/
 theorem daysFromCivil_succ (y m d : Int) : daysFromCivil y m (d + 1) = daysFromCivil y m d + 1 := by
   unfold daysFromCivil
